@@ -131,10 +131,26 @@ fn strategy() -> impl Strategy<Value = Case> {
 	cfg.max_side = 14;
 	cfg.heavy_payloads = false;
 	cfg.adverts = vec![Advert::Tight, Advert::Loose(1)];
-	(gen::set_spec(cfg), 0usize..5, proptest::option::of(any::<u32>()), 0usize..5).prop_flat_map(|(mut spec, s, enc, t)| {
+	(gen::set_spec(cfg), 0usize..5, proptest::option::of(any::<u32>()), 0usize..5, prop::bool::weighted(0.15)).prop_flat_map(|(mut spec, s, enc, t, chunky)| {
 		spec.pay = Pay::CoordText;
+		if chunky {
+			// tiles of 6-9 KB in rectangles of at least 12 x 12: a selection of few columns leaves more
+			// than 32 KiB of unselected data between selected tiles (chunked reads of the sources)
+			spec.pay = Pay::Random { lo: 6000, hi: 9000 };
+			spec.levels.truncate(2);
+			for l in spec.levels.iter_mut() {
+				let size = vt::model::Coord::size(l.z);
+				l.w = (l.w.max(12) as u64).min(size) as u32;
+				l.h = (l.h.max(12) as u64).min(size) as u32;
+				l.x0 = (l.x0 as u64).min(size - l.w as u64) as u32;
+				l.y0 = (l.y0 as u64).min(size - l.h as u64) as u32;
+				if !matches!(l.shape, vt::model::Shape::Sparse(_)) {
+					l.shape = vt::model::Shape::Dense;
+				}
+			}
+		}
 		let boxes = spec.materialise().tight_boxes();
-		(Just(spec), opts(boxes)).prop_map(move |(spec, opts)| Case { spec, source: Target::ALL[s], enc, target: Target::ALL[t], opts })
+		(Just(spec), opts(boxes)).prop_map(move |(spec, opts)| Case { spec, source: if chunky { Target::Versatiles } else { Target::ALL[s] }, enc, target: Target::ALL[t], opts })
 	})
 }
 
@@ -153,6 +169,8 @@ fn labels(case: &Case, exp: &BTreeMap<Coord, (Vec<u8>, Sel)>, obs: &mut Obs) {
 	let n_out = exp.values().filter(|(_, s)| *s == Sel::Out).count();
 	obs.label_if(n_in > 0 && n_out > 0, "selection-cuts-coverage");
 	obs.label_if(n_in == 0, "nothing-selected");
+	obs.label_if(matches!(case.spec.pay, Pay::Random { .. }), "tiles-of-6-9KB");
+	obs.label_if(matches!(case.spec.pay, Pay::Random { .. }) && case.source == Target::Versatiles && n_in > 0 && n_out > 0, "versatiles-source-with-6-9KB-tiles-cut-by-the-selection");
 	let moved = exp.len() >= 2 && (o.flip_y || o.swap_xy);
 	obs.nontrivial(exp.len() >= 2 && ((o.flip_y && o.swap_xy) || (o.bbox.is_some() && n_in > 0 && n_out > 0)) && (moved || o.bbox.is_some()));
 }
